@@ -191,6 +191,15 @@ func genTroublePlan(r *rand.Rand) *ProxyPlan {
 		}
 		p.Clients = append(p.Clients, ev)
 	}
+	if p.Backend == "file" && r.IntN(4) == 0 {
+		// a damaged disk: stored bodies lose their last bytes while nobody is being served. The entry
+		// can no longer be served from the store; the origin is healthy, so the client still gets its answer.
+		var ev []PReq
+		for i := 0; i < 1+r.IntN(2); i++ {
+			ev = append(ev, PReq{Truncate: []int{1, 9, 2000}[r.IntN(3)], AtMs: []int64{100, 400, 1200, 30000, 690000}[r.IntN(5)]})
+		}
+		p.Clients = append(p.Clients, ev)
+	}
 	return p
 }
 
